@@ -680,6 +680,17 @@ def pred_custom(x):
     return isinstance(x, (U.CBase, U.CAttr))
 
 
+def pred_flat_pair(x):
+    """content based: a 2-tuple whose items are not containers (same type, different verdicts)."""
+    U.tick('pred', x)
+    return type(x) is tuple and len(x) == 2 and not any(isinstance(e, (tuple, list, dict)) for e in x)
+
+
+def pred_short_list(x):
+    U.tick('pred', x)
+    return type(x) is list and len(x) <= 1
+
+
 def pred_none(x):
     U.tick('pred', x)
     return x is None
@@ -694,6 +705,8 @@ PREDICATES = {
     'never': pred_never,
     'custom': pred_custom,
     'isNone': pred_none,
+    'flat_pair': pred_flat_pair,
+    'short_list': pred_short_list,
 }
 DICT_MODES = ('sorted', 'ins-global', 'ins-ns')
 
